@@ -11,6 +11,12 @@ CHECKS = {
  "C02": ("exploration", "runtime memory-diff and write-journal monitor in the reference Logix target, plus read-back through the driver",
          "Before every write() call the whole controller memory is snapshotted; after it every byte is compared with the reference expectation (addressed bytes = reference encoding, don't-care bytes masked, everything else unchanged), the target's journal of executed write services is matched one-to-one against the successful requests (write / tiling fragments / exact-width read-modify-write touching only requested bits) and the address is read back.",
          "Overlapping requests of one call are judged at journal level only.", "4 C02"),
+ "C04": ("exploration", "runtime size/tiling monitors inside a reference target that enforces the granted connection size, driven by a dense size sweep",
+         "The reference target records the size it granted at Forward Open and checks online every connected data item length, every solicited Read Tag / multi-service reply size, and every fragment offset (reads: offset == bytes returned so far; writes: contiguous from 0, exact cover). The workload sweeps every SINT-array length in the window around the connection size for both connection sizes, both addressing modes, six name lengths, program scope, read and write, single and multi paths and three target fragment policies, plus other element types at the same byte windows, coarse sizes to 3x the connection size and brim-filling mixes of many long-named small tags.",
+         "Window width 24 (quick) / 60 (thorough) bytes around S and S/2; connection size semantics as in DESIGN.md section 3.", "4 C04"),
+ "C05": ("exploration", "runtime differential: uploaded tag list / type definitions vs the project loaded into the reference target, with metamorphic re-uploads",
+         "Random controller projects with every symbol kind are uploaded under target-chosen pagination and template fragmentation; tags, data_types and info are compared field by field with the project model, every uploaded type class must decode the tag's memory image to the reference value, re-uploads under other schedules and after the program is edited (same template ids, new definitions) must match the model, and tags_json must serialise.",
+         "Documented keys only; templates always carry a 'Name;n..' entry.", "4 C05"),
  "C06": ("exploration", "runtime round-trip monitor over a generated type grammar (stream position + value equality oracles)",
          "decode(encode(v)) == v, exact stream consumption with trailing junk, and dict-vs-sequence agreement are observed for every value of the 8/16-bit types, boundary/random values of wider types, strings at all prefix limits and thousands of generated nested Array/Struct/StructTag types plus the identity, date, STRINGN and STRINGI constructors.",
          "Domains as documented (docs/getting_started.rst); equality at stored precision; type grammar bounded to depth 3 and 4 KiB.", "4 C06"),
